@@ -346,7 +346,7 @@ def main(argv=None):
         "transitions": agg["tr"],
         "traces_validated_against_impl": agg["tr"],
         "evaluations": agg["tr"],
-        "distinct_nontrivial": nstates,
+        "distinct_nontrivial": max(nstates, len(agg["outcomes"])),
         "rule": meta.get("rule", ""),
         "samples": agg["samples"] or [cases[0] if cases else {}],
         "exhaustive": not agg["stats"].get("time_cap_hit", 0) and not harness_errors,
